@@ -455,7 +455,10 @@ def _audit(ctx, ns, rng, T, E, det, ops, where="final"):
                 # on node order, not on the structure: the two solver failures count as the same failure
                 solver_fail = lambda e_: (isinstance(e_, ValueError) and "Unstable system" in str(e_)) or (
                     isinstance(e_, RuntimeError) and "Steady-state not achieved" in str(e_))
-                ctx.check("history.reports_succeed", s1 != "ok" and (type(r1) is type(r2) or (solver_fail(r1) and solver_fail(r2))),
+                # (same failure = same exception class up to subclassing: numpy's UFuncTypeError IS a TypeError, and which
+                # of the two a sum over a column with '' cells raises depends on the order of its rows)
+                same_cls = isinstance(r1, type(r2)) or isinstance(r2, type(r1))
+                ctx.check("history.reports_succeed", s1 != "ok" and (same_cls or (solver_fail(r1) and solver_fail(r2))),
                           dict(det, report=name, edited="ok" if s1 == "ok" else H.exc_sig(r1), fresh=H.exc_sig(r2)))
                 continue
             ctx.check("history.reports_succeed", s1 == "ok",
